@@ -243,65 +243,21 @@ func c07(r *ev.Result, tier string) {
 		r.Set("distinct_ids_seen", len(seen))
 	}
 
-	/* (c') freshness when scripts are requested concurrently. */
+	/* (c') freshness, and each script built from its own request, when
+	scripts are requested concurrently. */
 	{
-		w, err := hworld.Start(hworld.Config{})
-		if nil != err {
-			ev.Broken("%s", err)
-		}
-		var (
-			mu   sync.Mutex
-			ids  = map[string]int{}
-			wg   sync.WaitGroup
-			nper = 1500
-		)
+		nper := 1500
 		if !quick {
 			nper = 6000
 		}
-		for g := 0; g < 16; g++ {
-			wg.Add(1)
-			go func() {
-				defer wg.Done()
-				c, err := w.Dial("")
-				if nil != err {
-					return
-				}
-				defer c.Close()
-				local := make([]string, 0, nper)
-				for i := 0; i < nper; i++ {
-					res, err := c.Do(hworld.Get("/c", w.Addr))
-					if nil != err {
-						return
-					}
-					if m := c07CurlRE.FindSubmatch(res.Body); nil != m {
-						local = append(local, string(m[4]))
-					}
-				}
-				mu.Lock()
-				for _, id := range local {
-					ids[id]++
-				}
-				mu.Unlock()
-			}()
-		}
-		done := make(chan struct{})
-		go func() { wg.Wait(); close(done) }()
-		for drained := false; !drained; {
-			select {
-			case <-done:
-				drained = true
-			default:
-				w.Drain()
-				time.Sleep(time.Millisecond)
-			}
-		}
-		w.Stop()
-		dups := 0
+		ids, problems := scriptsConcurrently(nper)
 		for id, n := range ids {
 			if n > 1 {
-				dups++
 				v("id-repeated/concurrent", fmt.Sprintf("ID %q was handed out %d times to concurrent requests", id, n), nil)
 			}
+		}
+		for _, pr := range problems {
+			v("script-wrong/concurrent", pr, nil)
 		}
 		r.Add(len(ids))
 		r.AddDistinct(len(ids))
@@ -558,4 +514,70 @@ func c07Replay(kind string, raw json.RawMessage) int {
 	}
 	fmt.Println("not reproduced")
 	return 0
+}
+
+// scriptsConcurrently has 16 clients ask for scripts at the same time, each
+// with a callback address of its own (and of its own length), nper times; it
+// returns how often each ID was handed out and what was wrong with any script
+// (at most 5 descriptions).  A sampling complement: the schedules are the
+// runtime's.
+func scriptsConcurrently(nper int) (ids map[string]int, problems []string) {
+	w, err := hworld.Start(hworld.Config{})
+	if nil != err {
+		ev.Broken("%s", err)
+	}
+	var (
+		mu sync.Mutex
+		wg sync.WaitGroup
+	)
+	ids = map[string]int{}
+	for g := 0; g < 16; g++ {
+		wg.Add(1)
+		go func() {
+			defer wg.Done()
+			c, err := w.Dial("")
+			if nil != err {
+				return
+			}
+			defer c.Close()
+			pin, _ := c.LeafPin()
+			addr := fmt.Sprintf("client%d%s.example:%d", g, strings.Repeat("x", g*7), 1000+g)
+			local := make([]string, 0, nper)
+			var probs []string
+			for i := 0; i < nper; i++ {
+				res, err := c.Do(hworld.Get("/c?c2="+addr, w.Addr))
+				if nil != err {
+					break
+				}
+				id, problem := c07CheckScript(res.Body, addr, pin)
+				if "" != problem && len(probs) < 2 {
+					probs = append(probs, fmt.Sprintf("client %d of 16 concurrent ones, request %d for callback address %q: %s", g, i, addr, problem))
+				}
+				if "" != id {
+					local = append(local, id)
+				}
+			}
+			mu.Lock()
+			for _, id := range local {
+				ids[id]++
+			}
+			if len(problems) < 5 {
+				problems = append(problems, probs...)
+			}
+			mu.Unlock()
+		}()
+	}
+	done := make(chan struct{})
+	go func() { wg.Wait(); close(done) }()
+	for drained := false; !drained; {
+		select {
+		case <-done:
+			drained = true
+		default:
+			w.Drain()
+			time.Sleep(time.Millisecond)
+		}
+	}
+	w.Stop()
+	return ids, problems
 }
